@@ -163,6 +163,8 @@ PROPS["C04"]["tables"] = ["unit-multipliers"]      # a compiled value that diffe
 # theorem modules about Lean text GENERATED from C functions: obligations whenever the translator accepts the current source
 PROPS["C10"]["generated"] = [{"module": "ScpiVerif.Props.C10Gen", "section": "fifo_c"}]
 PROPS["C14"]["generated"] = [{"module": "ScpiVerif.Props.C14Gen", "section": "intfmt_c"}]
+PROPS["C13"]["generated"] = [{"module": "ScpiVerif.Props.C13Gen", "section": "lexer_c"}]
+PROPS["C01"]["generated"] = [{"module": "ScpiVerif.Props.C01Gen", "section": "lexer_c"}]
 
 NOT_CLAIMED = {}
 
@@ -230,6 +232,11 @@ _T["C04"] = ("PARTIAL with a recorded finding. Proved: literal_has_value, intege
 _T["C08"] = ("PARTIAL with a recorded finding. Proved for every context and every stream (pending bytes included) IN WHICH NO QUOTED STRING CONTAINS A LINE TERMINATOR (QuotesLineLocal: no word of the string language of the token specification that starts directly after a blank or a comma contains LF or CR; decidable, quotesLineLocal_iff; implied by the absence of quote characters, quotesLineLocal_of_noQuotes; rejects the stream of the counterexample, counterexample_not_quotesLineLocal; a line-by-line pairing of quotes would not be sound, pairing_is_not_enough): chunking_invariant_quotes / chunking_bytewise_quotes / input_split_quotes (UserObservable, any partition, cuts inside a string or directly after a CR included), input_split_cr_quotes / chunking_invariant_cr_quotes (Observable, no cut directly after a CR), input_split_nocr_quotes / chunking_invariant_nocr_quotes / chunking_bytewise_nocr_quotes (Observable, streams without CR), scan_prefix_stable_quotes, each instantiated on the stream TXT \"a;b\",'c'<LF> cut inside the string (quotes_example, ..._example). The quote-free theorems are special cases: chunking_invariant_noquote / chunking_bytewise_noquote / input_split_noquote - any two partitions into non-empty chunks (cuts directly after a CR included), and feeding byte by byte, give the same handler invocations, parameters, errors, output bytes, flushes, registers, error queue and unconsumed remainder (UserObservable); the stronger Observable, which also records the message boundaries seen by the verification hook, is equal for streams without CR (input_split_partial, chunking_invariant_partial, chunking_invariant_noquote_nocr, chunking_bytewise_partial) and for partitions that do not cut directly after a CR (input_split_cr_partial, chunking_invariant_cr_partial); scan_prefix_stable (the terminator scan of SCPI_Input decides on bytes already present); flush_executes_pending (a zero-length call executes the pending bytes as one message and empties the buffer). Definite-length blocks with arbitrary data are covered. All rest on the proved model lemma parseLocalCR (SCPI_Parse of a message ending in LF or CR never depends on buffer bytes behind it). Disproved and kept visible: chunking_counterexample (a line terminator inside a quoted string ends the message when the stream arrives in pieces and not when it arrives whole) - genuine defect, known finding C08.terminator_inside_quotes; chunking_crlf_difference (a cut between CR and LF makes the LF an empty message of its own: same handlers, parameters and output; only the hook's message record differs).",
             "Lean kernel + standard axioms; context model tied to parser.c by scripted differential testing of every case in two segmentations (P8 mode, a quarter of them with an exact-fit input buffer) plus directed streams with numeric tails and flush calls, under ASan with the buffer-tail poisoning hook",
             "Lean 4 theorems (scan / parse / move decomposition of SCPI_Input, prefix stability of the scan on the specification side incl. string tokens, locality of SCPI_Parse, CR LF case analysis) + differential correspondence of two segmentations")
+# generated tie of lexer.c (translate/c2lean_lexer.py -> Gen/LexerC.lean, Props/C13Gen.lean, Props/C01Gen.lean)
+_T["C13"] = (_T["C13"][0] + " Generated tie (Props/C13Gen.lean): the Lean text translated from lexer.c on every run (clang typed AST, every read through a primitive that flags an out-of-bounds offset, short-circuit && ||, loops with fuel) is proved equal to the hand model for all buffers and cursors, with clean flags, for the primitives and for scpiLex_WhiteSpace, Comma, Semicolon, Colon, SpecificCharacter, NewLine, CharacterProgramData, DecimalNumericProgramData, NondecimalNumericData (c_lex_*); the recogniser theorems transfer to that text. Program headers, suffix, string, block and expression recognisers are translated but their refinement is not proved yet: hand model + correspondence only.",
+              _T["C13"][1] + "; lexer.c: clang-14 typed AST + translate/c2lean_lexer.py (pointer = offset, signed plain char, Int model of int arithmetic, ctype tables as linked) + refinement proofs for the functions listed", _T["C13"][2] + "; C-to-Lean translation of lexer.c with machine-checked equivalence to the model (part of the recognisers)")
+_T["C01"] = (_T["C01"][0] + " Generated tie (Props/C01Gen.lean, c_lex_no_oob / c_skip_no_oob): for the lexer functions translated from the C text and proved so far (see C13) 'every character read is preceded by an end-of-input check' IS a theorem about the current source - the generated text keeps !iseos(state) and state->pos[0] apart and every read outside [0, len) raises a flag that the theorems show clear; the remaining lexer functions and everything outside lexer.c stay with the sanitizers.",
+              _T["C01"][1], _T["C01"][2])
 for _k, (_a, _b, _c) in _T.items():
     PROPS[_k]["level_text"], PROPS[_k]["level_note"], PROPS[_k]["technique"] = _a, _b, _c
 
